@@ -63,6 +63,8 @@ var targets = []target{
 	{"pkg/requests/util/util.go", "GetRequestURI", "", ""},
 	{"pkg/requests/util/util.go", "IsForwardedRequest", "", ""},
 	{"pkg/cookies/cookies.go", "GetCookieDomain", "", ""},
+	{"pkg/cookies/cookies.go", "ParseSameSite", "", ""},
+	{"pkg/cookies/cookies.go", "MakeCookieFromOptions", "", ""},
 	{"pkg/requests/util/util.go", "GetRequestPath", "", ""},
 	{"oauthproxy.go", "isAllowedMethod", "", ""},
 	{"oauthproxy.go", "isAllowedPath", "", ""},
@@ -75,25 +77,26 @@ var targets = []target{
 
 // kinds
 const (
-	kStr    = "str"
-	kInt    = "int"
-	kBool   = "bool"
-	kChar   = "char"
-	kErr    = "err"
-	kTime   = "time"
-	kStrs   = "strs"
-	kInts   = "ints"
-	kCookie = "cookie"
-	kURL    = "url"
-	kReq    = "req"
-	kUnit   = "unit"
-	kHmac   = "hmac"
-	kScope  = "scopeptr"
-	kRoute  = "route"
-	kRoutes = "routes"
-	kRegex  = "regex"
-	kCkOpts = "cookieopts"
-	kAny    = "?"
+	kStr     = "str"
+	kInt     = "int"
+	kBool    = "bool"
+	kChar    = "char"
+	kErr     = "err"
+	kTime    = "time"
+	kStrs    = "strs"
+	kInts    = "ints"
+	kCookie  = "cookie"
+	kURL     = "url"
+	kReq     = "req"
+	kUnit    = "unit"
+	kHmac    = "hmac"
+	kScope   = "scopeptr"
+	kRoute   = "route"
+	kRoutes  = "routes"
+	kRegex   = "regex"
+	kCkOpts  = "cookieopts"
+	kHCookie = "httpcookie"
+	kAny     = "?"
 )
 
 func leanOfKind(k string) string {
@@ -134,6 +137,8 @@ func leanOfKind(k string) string {
 		return "Str"
 	case kCkOpts:
 		return "Go.CookieOpts"
+	case kHCookie:
+		return "Go.HttpCookie"
 	}
 	panic("no Lean type for kind " + k)
 }
@@ -213,6 +218,8 @@ func kindOfType(t ast.Expr) string {
 		return kRoute
 	case "*options.Cookie":
 		return kCkOpts
+	case "http.SameSite":
+		return kInt
 	case "func":
 		return kUnit
 	}
@@ -318,6 +325,23 @@ func (t *tr) expr(e ast.Expr) (string, string) {
 		}
 		fail("literal %s", x.Value)
 	case *ast.UnaryExpr:
+		if cl, ok := x.X.(*ast.CompositeLit); ok && x.Op == token.AND && exprString(cl.Type) == "http.Cookie" {
+			allowed := map[string]bool{"Name": true, "Value": true, "Path": true, "Domain": true, "HttpOnly": true, "Secure": true, "SameSite": true, "MaxAge": true}
+			var fs []string
+			for _, e := range cl.Elts {
+				kv, ok := e.(*ast.KeyValueExpr)
+				if !ok {
+					fail("positional field in http.Cookie literal")
+				}
+				name := exprString(kv.Key)
+				if !allowed[name] {
+					fail("http.Cookie field %s", name)
+				}
+				c, _ := t.expr(kv.Value)
+				fs = append(fs, name+" := "+c)
+			}
+			return "({ " + strings.Join(fs, ", ") + " } : Go.HttpCookie)", kHCookie
+		}
 		c, k := t.expr(x.X)
 		switch x.Op {
 		case token.NOT:
@@ -367,6 +391,14 @@ func (t *tr) expr(e ast.Expr) (string, string) {
 			return "Go.timeMinute", kInt
 		case "time.Second":
 			return "Go.timeSecond", kInt
+		case "http.SameSiteDefaultMode":
+			return "(1 : Int)", kInt
+		case "http.SameSiteLaxMode":
+			return "(2 : Int)", kInt
+		case "http.SameSiteStrictMode":
+			return "(3 : Int)", kInt
+		case "http.SameSiteNoneMode":
+			return "(4 : Int)", kInt
 		case "time.Hour":
 			return "(Go.timeMinute * 60)", kInt
 		}
@@ -388,8 +420,12 @@ func (t *tr) expr(e ast.Expr) (string, string) {
 					return ident(id.Name) + ".negate", kBool
 				case "route.pathRegex":
 					return ident(id.Name) + ".pathRegex", kRegex
-				case "cookieopts.Name":
-					return ident(id.Name) + ".Name", kStr
+				case "cookieopts.Name", "cookieopts.Path", "cookieopts.SameSite":
+					return ident(id.Name) + "." + x.Sel.Name, kStr
+				case "cookieopts.Domains":
+					return ident(id.Name) + ".Domains", kStrs
+				case "cookieopts.HTTPOnly", "cookieopts.Secure":
+					return ident(id.Name) + "." + x.Sel.Name, kBool
 				case "cookieopts.CSRFPerRequest":
 					return ident(id.Name) + ".CSRFPerRequest", kBool
 				case "url.Path":
@@ -555,6 +591,14 @@ func (t *tr) call(x *ast.CallExpr) (string, string) {
 		c, _ := t.expr(x.Args[0])
 		return c, kStr
 	case "int64", "int", "time.Duration":
+		if inner, ok := x.Args[0].(*ast.CallExpr); ok && fn == "int" {
+			if sel, ok := inner.Fun.(*ast.SelectorExpr); ok && sel.Sel.Name == "Seconds" && len(inner.Args) == 0 {
+				c, k := t.expr(sel.X)
+				if k == kInt {
+					return "(Go.durationSecondsInt " + atom(c) + ")", kInt
+				}
+			}
+		}
 		c, _ := t.expr(x.Args[0])
 		return c, kInt
 	case "len":
@@ -864,6 +908,13 @@ func (t *tr) stmt(o *out, ind int, s ast.Stmt) {
 				fail("assignment shape")
 			}
 			if len(x.Lhs) == 1 {
+				if sel, ok := x.Lhs[0].(*ast.SelectorExpr); ok && !define {
+					if root, ok := sel.X.(*ast.Ident); ok && t.kinds[root.Name] == kHCookie {
+						c, _ := t.expr(x.Rhs[0])
+						o.add(ind, ident(root.Name)+" := { "+ident(root.Name)+" with "+sel.Sel.Name+" := "+c+" }")
+						return
+					}
+				}
 				id, ok := x.Lhs[0].(*ast.Ident)
 				if !ok {
 					fail("assignment to %s", exprString(x.Lhs[0]))
@@ -932,8 +983,12 @@ func (t *tr) stmt(o *out, ind int, s ast.Stmt) {
 	case *ast.ExprStmt:
 		if c, ok := x.X.(*ast.CallExpr); ok {
 			fn := exprString(c.Fun)
-			if strings.HasPrefix(fn, "logger.") {
+			if strings.HasPrefix(fn, "logger.") || fn == "warnInvalidDomain" {
 				return // logging has no effect on the result
+			}
+			if fn == "panic" {
+				o.add(ind, "throw \"panic\"")
+				return
 			}
 			if sel, ok := c.Fun.(*ast.SelectorExpr); ok && sel.Sel.Name == "Write" {
 				if id, ok := sel.X.(*ast.Ident); ok && t.kinds[id.Name] == kHmac {
@@ -1164,6 +1219,11 @@ func assignedNames(fd *ast.FuncDecl) map[string]bool {
 					if id, ok := l.(*ast.Ident); ok {
 						m[id.Name] = true
 					}
+					if sel, ok := l.(*ast.SelectorExpr); ok {
+						if id, ok := sel.X.(*ast.Ident); ok {
+							m[id.Name] = true
+						}
+					}
 				}
 			}
 		case *ast.IncDecStmt:
@@ -1302,6 +1362,11 @@ func main() {
 			}()
 			pk, _, variadic := fieldKinds(fd.Type.Params)
 			rk, _, _ := fieldKinds(fd.Type.Results)
+			for i := range rk {
+				if rk[i] == kCookie {
+					rk[i] = kHCookie
+				}
+			}
 			t.sigs[tg.name] = sig{params: pk, variadic: variadic, results: rk}
 		}()
 	}
